@@ -222,6 +222,11 @@ class Kit:
         if op == "adopt":
             self.submit(step[1], "adopt")
             return True
+        if op == "block-thread":
+            # a synchronous, blocking call inside the payload: stalls its whole thread
+            self.env.log("blocking-thread", id=desc["id"])
+            self.env.sleep(step[1])
+            return True
         if op == "section-adopt":
             # adopt another payload from the middle of a synchronous section
             flavour = desc["flavour"]
@@ -346,7 +351,7 @@ class Kit:
                         while True:
                             await asyncio.sleep(step[1])
                             kit.env.log("beat", id=desc["id"])
-                            kit.env.point("mid-step")
+                            kit._section(desc)
                     elif op == "repeat-execute":
                         while True:
                             kit.submit(step[1], "execute")
@@ -401,7 +406,7 @@ class Kit:
                         while True:
                             await trio.sleep(step[1])
                             kit.env.log("beat", id=desc["id"])
-                            kit.env.point("mid-step")
+                            kit._section(desc)
                     elif op == "repeat-execute":
                         while True:
                             kit.submit(step[1], "execute")
